@@ -19,6 +19,7 @@ namespace LndModel.C20.Driver
 structure Dump where
   chans : List (Scid × ChanInfo) := []
   proofs : List (Scid × Nat) := []
+  points : List (Scid × String) := []   -- stored ChannelPoint (txid prefix . index)
   pols : List ((Scid × Nat) × Policy) := []
   nodes : List (Key × NodeInfo) := []
   zombies : List (Scid × (Key × Key)) := []
@@ -30,6 +31,7 @@ structure Seen where
   msg : Msg
   rv : String := ""          -- ca: real validity of bs1,bs2,ns1,ns2 under the stated keys
   vk : List Nat := []        -- cu/na: ids of the keys under which the signature really verifies
+  fop : String := "-"        -- ca: the harness's ground truth outpoint txid.output of the scid
 
 structure ChainEnt where
   res : String
@@ -93,9 +95,10 @@ def parseDump (ws : List String) : Dump := Id.run do
   let mut d : Dump := {}
   for t in splitList ((kv? ws "C").getD "-") "|" do
     match t.splitOn ":" with
-    | [sc, n1, n2, b1, b2, cap, pr, ft, ex] =>
+    | [sc, n1, n2, b1, b2, cap, pr, ft, ex, pt] =>
       d := { d with chans := d.chans ++ [(natD sc, ⟨natD n1, natD n2, natD b1, natD b2, natD cap, blob ft, blob ex⟩)],
-                    proofs := d.proofs ++ [(natD sc, natD pr)] }
+                    proofs := d.proofs ++ [(natD sc, natD pr)],
+                    points := d.points ++ [(natD sc, pt)] }
     | _ => d := { d with bad := true }
   for t in splitList ((kv? ws "P").getD "-") "|" do
     match t.splitOn ":" with
@@ -266,6 +269,13 @@ def runMonitor (s : St) (opKind : String) (cur : Option Seen) (now : Nat) (relay
       if !(opKind == "ca" || opKind == "blk") || !(caCands.any (fun e => caJustifies s e c ci)) || !okProof then
         s ← monitor s "chan-ann-authentic" s!"channel {c} entered the graph without an authentic announcement and matching unspent 2-of-2 funding output (op={opKind})"
       else s := { s with chanAdds := s.chanAdds + 1 }
+      -- the stored channel point must be the scid's own outpoint txid:output_index
+      if opKind == "ca" && !s.cfg.assumeValid then
+        match cur with
+        | some e =>
+          if e.fop != "-" && lookup c after.points != some e.fop then
+            s ← monitor s "channel-point" s!"channel {c} is stored with channel point {(lookup c after.points).getD "?"}, the scid's funding outpoint is {e.fop}"
+        | none => pure ()
   -- policies
   for (k, p) in before.pols do
     if lookup k after.pols == none then
@@ -511,7 +521,7 @@ def step (s : St) (line : String) : IO St := do
     let id := n rest "id"
     let peer := n rest "peer"
     let now := n rest "now"
-    let cur : Seen := ⟨id, m, sv rest "rv", (splitList (sv rest "vk") ",").map natD⟩
+    let cur : Seen := ⟨id, m, sv rest "rv", (splitList (sv rest "vk") ",").map natD, sv rest "fop"⟩
     let res := sv ws "res"
     let relay := splitList (sv ws "relay") ","
     let after := parseDump ws
